@@ -71,12 +71,15 @@ func init() {
 			in.Path.ndNames = map[string]bool{}
 		}
 		desc := &SymStruct{Name: ""}
-		// ID field: 0 absent, 1 string, 2 int
-		idKind := choice(tag+".idkind", 3)
+		// ID field: 0 absent, 1 string, 2 int, 3 a named string type
+		idKind := choice(tag+".idkind", 4)
 		if idKind > 0 {
 			f := SymField{Name: "ID", T: tbl[0]}
 			if idKind == 2 {
 				f.T = tbl[1]
+			}
+			if idKind == 3 {
+				f.T = tbl[13]
 			}
 			switch choice(tag+".idapi", 3) { // absent, empty, symbolic 1..2
 			case 1:
